@@ -1320,7 +1320,7 @@ def main(run: Run):
     except Exception as e:  # noqa
         import traceback
         run.broken("directed-weighted", f"{type(e).__name__}: {e}\n{traceback.format_exc()[-1500:]}")
-    toy_histories(run, 6000 if thorough else 1500, n_weighted=1600 if thorough else 400, n_nd=1600 if thorough else 250)
+    toy_histories(run, 6000 if thorough else 1500, n_weighted=1600 if thorough else 400, n_nd=1000 if thorough else 250)
     if thorough:
         exhaustive_diamond(run, 3)
     kinds = [("logistic", {}), ("logistic", dict(source_dimension=2))]
